@@ -1005,3 +1005,13 @@ def mon_c02_threads(spec, run):
 
 MONITORS["C02t"] = mon_c02_threads
 MONITORS["C04r"] = _wire("mon_c04_race")
+
+
+def mon_l5run(spec, run):
+    """not a property monitor: validates the run against the L5 dialogue model (harness/dialogue.py); the verdict travels in the result"""
+    from . import dialogue
+    run.results["l5"] = dialogue.check(spec, run)
+    return []
+
+
+MONITORS["L5run"] = mon_l5run
